@@ -1,5 +1,6 @@
 import GnoVerif.Model.C38
 import GnoVerif.Model.C38Search
+import GnoVerif.Spec.C38
 import GnoVerif.Proofs.C38Frame
 /-!
 # C38 — the consensus write-ahead log preserves what was written
@@ -60,5 +61,130 @@ theorem read_truncated (cfg : Cfg) (items : List Item) (g : ∀ i ∈ items, Goo
   unfold readAll
   rw [hcl]
   exact readLines_map cfg _ (fun i hi => g i (List.mem_of_mem_take hi))
+
+/-! ## Clause 3 — a corrupted message line is reported as corruption
+
+`msgText p` is the text of the data line for payload `p` (without its newline).
+A single-byte corruption replaces the byte at position `i` by `v`; `v = 10`
+('\n') is excluded because it changes the line structure. -/
+
+/-- The statement, at full strength: every single-byte corruption of a message
+line is reported as corruption — or (when only bits the base64 decoder ignores
+changed) the ORIGINAL message is returned; never anything else. -/
+def corruption_statement : Prop :=
+  ∀ (cfg : Cfg) (p : Bytes), GoodPayload cfg p → ∀ (i : Nat) (v : UInt8), i < (msgText p).length →
+    v ≠ 10 → v ≠ (msgText p).getD i 0 →
+    readLine cfg ((msgText p).set i v) = .corrupt ∨ readLine cfg ((msgText p).set i v) = .msg p
+
+/-- FINDING (unchanged tree): the statement is false. Replacing the FIRST byte of
+a message line by '#' makes `ReadMessage` treat the line as a height marker; the
+JSON parser then fails with a plain error, which is NOT a `DataCorruptionError`
+(so e.g. `SearchForHeight` with `IgnoreDataCorruptionErrors` aborts instead of
+skipping the line). Witness: payload `00`, i = 0, v = '#'. -/
+theorem corruption_counterexample : ¬ corruption_statement := by
+  intro h
+  have := h ⟨1000, sizedOK⟩ [0] ⟨by decide, by decide, by decide⟩ 0 35 (by decide) (by decide) (by decide)
+  revert this
+  decide
+
+/-- Partial result 1 (no assumption on the payload): replacing any character of a
+message line by a byte outside the base64 alphabet — other than CR, LF and the
+'#'-in-first-position of the finding above — is reported as corruption.
+MISSING for the full statement: (a) `v` = another alphabet character (needs the
+CRC-32C burst argument, see `corruption_alphabet_partial` when present);
+(b) `v` = CR, which the base64 decoder silently drops, shifting all later bits —
+CRC-32 cannot exclude a collision there. -/
+theorem corruption_nonalphabet_partial (cfg : Cfg) (p : Bytes) (i : Nat) (v : UInt8)
+    (hi : i < (msgText p).length) (hv : Base64.decChar v = none) (h13 : v ≠ 13) (h10 : v ≠ 10)
+    (hh : ¬ (i = 0 ∧ v = 35)) :
+    readLine cfg ((msgText p).set i v) = .corrupt :=
+  readLine_set_nonalpha cfg p i v hi hv h13 h10 hh
+
+/-- the guard of `corruption_nonalphabet_partial` is satisfiable -/
+example : (4 : Nat) < (msgText [0]).length ∧ Base64.decChar 33 = none ∧ (33 : UInt8) ≠ 13 ∧ (33 : UInt8) ≠ 10 ∧
+    ¬ ((4 : Nat) = 0 ∧ (33 : UInt8) = 35) := by decide
+
+/-- Partial result 2: whatever bytes a line consists of, if the reader accepts it as
+message `p'` then the line base64-decodes to `crc ‖ p'` with `crc = crc32c p'`, `p'`
+is non-empty, within the limit and amino-decodable. So an altered message can only
+be accepted if the damaged line carries a matching CRC-32C. -/
+theorem accepted_line_has_matching_crc_partial (cfg : Cfg) (l p' : Bytes) (h : readLine cfg l = .msg p') :
+    ∃ a b c d, Base64.decode l = some (a :: b :: c :: d :: p') ∧ Crc32c.crc32c p' = ofBe32 a b c d ∧
+      p' ≠ [] ∧ (p'.length : Int) ≤ cfg.maxSize ∧ cfg.bodyOK p' = true := by
+  obtain ⟨a, b, c, d, h1, h2, h3, h4, h5, _⟩ := readLine_msg_inv h
+  exact ⟨a, b, c, d, h1, h2, h3, h4, h5⟩
+
+example : readLine ⟨1000, sizedOK⟩ (msgText [0]) = .msg [0] := by decide
+
+/-! ### observations about height-marker lines (no claim in the statement; reported) -/
+
+/-- A marker line has no checksum: a damaged digit yields a different, accepted height. -/
+theorem marker_digit_flip_accepted_observation :
+    readAll ⟨1000, sizedOK⟩ ((encodeAll [.mark 1, .msg [0]]).set 7 55) = ([.mark 7, .msg [0]], .eof) := by
+  decide
+
+/-- A marker line whose closing brace is damaged makes the JSON token reader run out
+of input: the error returned IS io.EOF, so every caller takes it for the end of the
+log — everything after that line is silently ignored. -/
+theorem marker_damage_reads_as_eof_observation :
+    readAll ⟨1000, sizedOK⟩ ((encodeAll [.mark 1, .msg [0]]).set 9 32) = ([], .eof) := by
+  decide
+
+/-- Other damage to a marker line is a plain (non-corruption) error. -/
+theorem marker_damage_not_corruption_observation :
+    readAll ⟨1000, sizedOK⟩ ((encodeAll [.mark 1, .msg [0]]).set 1 65) = ([], .metaerr) := by
+  decide
+
+/-- The writer treats `maxSize = 0` as "no limit", the reader as "limit 0": with
+that configuration nothing written can be read back. (Production uses 1 MiB.) -/
+theorem maxsize_zero_observation :
+    writerAccepts 0 [0] = true ∧ readAll ⟨0, sizedOK⟩ (encodeAll [.msg [0]]) = ([], .corrupt) := by
+  decide
+
+/-! ## Clause 4 — the search for a height marker -/
+
+/-- The statement: for every rotation layout of well-formed lines with strictly
+increasing markers, every search mode and every height, `SearchForHeight` answers
+"found", positioned right after the first marker of that height, or "not found"
+when there is none. -/
+def search_statement : Prop :=
+  ∀ (cfg : Cfg) (layout : Layout) (mode : Nat) (h : Int), layout ≠ [] →
+    (∀ f ∈ layout, ∀ i ∈ f, GoodItem cfg i) →
+    (markersOf layout.flatten).Pairwise (· < ·) →
+    search cfg (layoutGroup layout) mode false h = expectedSearch h layout
+
+/-- FINDING (unchanged tree): the statement is false — `SearchForHeight` PANICS
+("should not happen"). Witness: the log `#{"h":"0"}`, `#{"h":"2"}` in the first file,
+then a rotation (empty head file), search for height 2, default mode. The head has no
+marker, `maxVal` drops to 0 and `backoff` to -1, so the next probe index is -1 < minVal.
+The same happens for every two-file group whose head is read to its end without a
+decisive marker — in particular `catchupReplay`'s first call `SearchForHeight(h+1)`. -/
+theorem search_counterexample : ¬ search_statement := by
+  intro h
+  have := h ⟨1000, sizedOK⟩ [[.mark 0, .mark 2], []] 0 2 (by decide)
+    (by
+      intro f hf i hi
+      simp only [List.mem_cons, List.not_mem_nil, or_false] at hf
+      rcases hf with rfl | rfl
+      · simp only [List.mem_cons, List.not_mem_nil, or_false] at hi
+        rcases hi with rfl | rfl <;> exact ⟨by decide, by decide⟩
+      · cases hi)
+    (by decide)
+  revert this
+  decide
+
+/-- the very same layout as the real `NewWAL`/`Start`/`WriteMetaSync(2)`/rotate produce it -/
+theorem search_panic_through_wal_counterexample :
+    search ⟨1000, sizedOK⟩ (buildGroup 1000 0 0 true [.item (.mark 2), .rotate]) 0 false 2 = .panicked := by
+  decide
+
+/-- The reader handed back by a successful search covers only the rest of the file
+in which the marker was found (`NewReader(index, index+1)`), not the files after it:
+here the message written after the rotation is not in it. (Reported; the statement
+only speaks of the position.) -/
+theorem search_reader_single_file_observation :
+    search ⟨1000, sizedOK⟩ (layoutGroup [[.mark 1, .msg [0]], [.msg [0]], [.msg [0]]]) 0 false 1
+      = .found (encodeAll [.msg [0]]) := by
+  decide
 
 end GnoVerif.C38
